@@ -362,7 +362,7 @@ def run_c25(ctx, replay):
         r2 = vlib.tlc(ctx, "IPCQuery", Q_CONST % ("1", 5) + "INIT Init\nNEXT Next\nINVARIANT C25Q\n", workers=1)
         if r2.violated != "C25Q":
             raise vlib.Inconclusive("closed-channel finding not reachable in the model")
-        ns, ds, nq, dq = (1500, 40, 640, 36) if ctx.thorough() else (160, 30, 96, 30)
+        ns, ds, nq, dq = (1500, 40, 640, 36) if ctx.thorough() else (160, 30, 80, 30)
         _, ss = vlib.simulate_schedules(ctx, "Gen_IPCStreams", ST_CONST % ("1, 2, 3", ds) + "INIT GenInit\nNEXT GenNext\n", ns, ds)
         for s in ss:
             if s[-1]["a"] != "close":
@@ -384,7 +384,7 @@ def run_c25(ctx, replay):
             # the closed-channel records depend on Go's random choice among ready select cases (and, un-gated, on which
             # of two timers fires first): the schedule is re-executed from scratch 6 times, one more failure confirms
             return vlib.validate(ctx, module, cfg, execute(ctx, binary, mode, [sched] * 6, tag, extra=extra))
-        vs = confirm(ctx, rep, scheds, "C25_", rerun, per_key=3)
+        vs = confirm(ctx, rep, scheds, "C25_", rerun, per_key=2)
         for v in vs:
             v["part"] = part
         viol += vs
